@@ -27,6 +27,8 @@ RULE = (
     "decided). non-trivial = a run in which at least one endpoint terminated; distinct = hash(who closed or idle, handshake "
     "state at close, timer mode, fate multiset, op multiset)."
 )
+RULE += " Late additions: modes peer-refuses-handshake (CONNECTION_CLOSE in the server's first packet; the peer-close clock starts from the frame seen in an opened packet, not from the library's state) and local-idle-timeout-zero."
+
 ASSUMPTIONS = [
     "t0 (start of closing) and PTO0 are read at the step in which the endpoint's CONNECTION_CLOSE appears on the wire / a "
     "CONNECTION_CLOSE was delivered to it; PTO is read from the connection's recovery object (hooked)",
